@@ -29,6 +29,7 @@ ASSUMPTIONS = ["argparse.ArgumentParser (CPython 3.12) is the reference: its beh
                "dataclass constructors of generated classes do not raise"]
 TRUSTED = ["stdlib argparse (it is the oracle of this property)"]
 EXHAUSTIVE = {"quick": False, "thorough": False}
+THOROUGH_ROUNDS = 3   # thorough tier: this many generator passes with derived PRNG states (vcheck)
 MANIFEST = {
     "text": ("Proof (frame theorem, full for the post-processing; engine equivalence differential). Lean theorems over the "
              "model of parse_known_args/_postprocessing, for EVERY argparse engine and EVERY algebra of Python values: the "
